@@ -4,6 +4,7 @@ import (
 	"fmt"
 	"math/rand"
 	"sort"
+	"sync"
 	"testing"
 
 	tcpip "github.com/brewlin/net-protocol/protocol"
@@ -40,6 +41,15 @@ type ephObs struct {
 	nfree     int
 }
 
+// The two 64 KiB tables are recycled (zeroed on reuse) to keep the allocator out of the measurement.
+var obsPool = sync.Pool{New: func() any { return new(ephObs) }}
+
+func newObs() *ephObs {
+	o := obsPool.Get().(*ephObs)
+	*o = ephObs{first: -1, outOfRng: -1}
+	return o
+}
+
 func inRange(p int) bool { return p >= firstEph && p <= lastEph }
 
 func (o *ephObs) addFree(p int) {
@@ -64,7 +74,8 @@ func runEph(c EphCase) *evid.Failure {
 	if c.Via == 1 {
 		return runEphReserve(c)
 	}
-	o := &ephObs{first: -1, outOfRng: -1}
+	o := newObs()
+	defer obsPool.Put(o)
 	absFree(c, o)
 	rand.Seed(c.Seed)
 	pm := ports.NewPortManager()
@@ -355,7 +366,8 @@ func TestEphemeralGrid(t *testing.T) {
 // ---- the same through ReservePort(port 0) on a nearly full manager -------------
 
 func runEphReserve(c EphCase) *evid.Failure {
-	o := &ephObs{first: -1, outOfRng: -1}
+	o := newObs()
+	defer obsPool.Put(o)
 	absFree(c, o)
 	pm := ports.NewPortManager()
 	nets := netsOf(netV4, false)
